@@ -43,6 +43,49 @@ NOT_ATTRIBUTED = {p: [_PM, _VP] for p in ("C02", "C03", "C04", "C05", "C06", "C0
 NOT_ATTRIBUTED["C01"] = [_PM]; NOT_ATTRIBUTED["C08"] = [_PM]; NOT_ATTRIBUTED["C07"] = [_VP]
 LEVEL = {"C14": "other"}
 
+# ---- witness search (secondary): scenario families of the replay binary tried when an obligation of a function fails ----
+WITNESS = [
+    (r"next_key_piece_offset|DbXxxIter|DbXxxKeys|DbXxxValues|DbXxxIntoIter|write_key_piece_offset|htx_filling|HtxFile::open",
+     [["scan", "128", "k25", "k312", "k911", "k303"], ["scan", "8", "a", "b", "c", "d", "e", "f", "g", "h", "i", "j"], ["scan", "4", "a"],
+      ["scan", "64", "k1", "k2", "k3", "k4", "k5", "k6", "k7", "k8", "k9", "k10", "k11", "k12"], ["scan", "256", "k25", "k312", "k911", "k303", "k7", "k8"],
+      ["history", "1", "12", "300"], ["history", "7", "40", "600"]]),
+    (r"dat_write_piece_one|encoded_piece_size|write_zero_to_offset|roundup|read_piece|write_piece_size|write_piece_offset|read_and_decode|kani:u3_roundup|kani:u0",
+     [["putget", "5000"], ["putsweep"], ["history", "1", "12", "300"]]),
+    (r"push_free|pop_free|delete_piece|write_piece|write_piece_clear|count_of_free|kani:u3_",
+     [["reuse"], ["putsweep"], ["history", "1", "12", "300"], ["history", "5", "6", "800"], ["history", "9", "30", "800"]]),
+    (r"put_kt|del_kt|get_kt|find_in_hash|store_value|includes_key|load_value|::len",
+     [["history", "1", "12", "300"], ["history", "5", "6", "800"], ["history", "9", "30", "800"], ["history", "11", "3", "500"], ["durable"]]),
+    (r"flush|sync_all|sync_data|dirty", [["flushdur"], ["durable"], ["history", "1", "12", "300"]]),
+    (r"open_with_params|check_.*header|init_header|kani:c13|kani:c12", [["bufsize", "131072"], ["bufsize", "1000"], ["scan", "4", "a"], ["durable"], ["history", "1", "12", "300"]]),
+]
+_replay_built = [False]
+def witness_search(oid_):
+    """returns (argv, output) of the first scenario that fails on the real crate, or None. Time-boxed."""
+    import subprocess
+    rdir = os.path.join(ROOT, "replay"); tdir = os.path.join(ROOT, "out", "replay-target")
+    if not _replay_built[0]:
+        try:
+            subprocess.run(["cargo", "build", "--offline", "-q"], cwd=rdir, env=dict(os.environ, CARGO_TARGET_DIR=tdir, CARGO_NET_OFFLINE="true"),
+                           stdout=subprocess.DEVNULL, stderr=subprocess.DEVNULL, timeout=300)
+        except Exception:
+            return None
+        _replay_built[0] = True
+    exe = os.path.join(tdir, "debug", "abyss-replay")
+    if not os.path.exists(exe): return None
+    t_end = time.time() + 60
+    for rx, scen in WITNESS:
+        if not re.search(rx, oid_): continue
+        for argv in scen:
+            if time.time() > t_end: return None
+            try:
+                p = subprocess.run([exe] + argv, stdout=subprocess.PIPE, stderr=subprocess.STDOUT, text=True, timeout=40, env=dict(os.environ, RUST_BACKTRACE="0"))
+            except subprocess.TimeoutExpired:
+                return (argv, "scenario did not terminate within 40 s (hang)")
+            if p.returncode != 0:
+                tail = "\n".join(l for l in p.stdout.strip().split("\n") if "auto_activate_base" not in l)[-600:]
+                return (argv, tail)
+    return None
+
 def sanitize(s):
     return re.sub(r"[^A-Za-z0-9_.#-]+", "_", s)[:120]
 
@@ -92,7 +135,11 @@ def check(prop, tier, args):
         undecided += r1.undecided
         fails = r1.failures
         rlim = set(r1.fn_rlimit)
-        if (fails or rlim) and not r1.undecided:
+        def expected(f):
+            o = oid(f)
+            return any(re.search(rx, o) for rx in NOT_ATTRIBUTED.get(prop, [])) or run.match_known(known, prop, o) is not None
+        unexpected = [f for f in fails if not expected(f)]
+        if (unexpected or rlim) and not r1.undecided:
             # re-run once with 4x resources and another seed: only failures that persist count
             r2 = run.run_verus(upath, unit, rlimit=rl * 4, seed=seed + 7919)
             checker_cmds.append(r2.cmd)
@@ -198,6 +245,8 @@ def check(prop, tier, args):
         os.makedirs(os.path.join(ROOT, "out", "replay", prop), exist_ok=True)
         rp = os.path.join(ROOT, "out", "replay", prop, sanitize(f["oid"]) + ".json")
         witness = None
+        ws = witness_search(f["oid"])
+        if ws: witness = {"replay_scenario": "abyss-replay " + " ".join(ws[0]), "real_code_output": ws[1]}
         json.dump({"property": prop, "obligation": f["oid"], "backend": f["backend"], "message": f.get("message"),
                    "source": f.get("src"), "verifier_output": f.get("rendered"), "witness": witness,
                    "replay": "./check %s --replay %s" % (prop, rp)}, open(rp, "w"), indent=1)
